@@ -331,7 +331,7 @@ def run(tier):
         ck.violation("tie-broken:proof", "Props/C13.v no longer checks (a code without a section in docs/errors.md, or a duplicated code)", getattr(ck, "proof_output", "")[-2500:])
     ck.coverage.update(
         evaluations=len(allc) + 3 * len(det), distinct_nontrivial=len(codes_seen) + len({c[2] for c in allc}),
-        rule="diag stream: mutated corpus (tests/samples, examples, core, vendor), generated programs with 1-3 injected faults, token soup, CRLF and multi-byte variants, known-identifier faults; every reported location must lie in the file, start on the reported line at the reported column and render in 4 colour/charset configurations; determinism: 3 fresh processes per input, verdict + diagnostics + IR text compared byte for byte, and the rendered text of every diagnostic (digest) across 4 processes, including declaration cycles through 2-5 constants and a structure; the real command line tool on sources with multi-byte characters (line and column in the rendered header); distinct = distinct inputs + distinct codes observed",
+        rule="diag stream: mutated corpus (tests/samples, examples, core, vendor), generated programs with 1-3 injected faults, token soup, CRLF and multi-byte variants, known-identifier faults; every reported location must lie in the file, start on the reported line at the reported column and render in 4 colour/charset configurations; determinism: 3 fresh processes per input, verdict + diagnostics + IR text compared byte for byte, and the rendered text of every diagnostic (digest) across 4 processes, including declaration cycles through 2-5 constants and a structure; the real command line tool on sources with multi-byte characters (line and column in the rendered header); distinct = distinct inputs + distinct codes observed; shown-lines cases: the source lines excerpted by the plain rendering of E482 (1-4 gotos around the declaration), E422, E420 are exactly the lines involved",
         verdicts=dict(stats), codes_observed=dict(codes_seen.most_common(60)), location_problems=bad, nondeterministic=nondet,
         samples=[dict(kind=allc[i][1], source=allc[i][2][:400], result=impl.get(allc[i][0], ["?"])) for i in (0, 5, len(allc) - 1)])
     ck.assumptions += ["ariadne's rendering itself is not modelled; rendering is exercised, not proved", "hash-seed effects are sampled over 3 processes"]
